@@ -7,6 +7,11 @@ C05.lower  the set of names lower-cased in the canonical form equals the
            RFC 4034 6.2 list as amended by RFC 6840 5.1 (frozen table below).
 C05.rdlen  rdlen(false) == sum of what compose_rdata writes: constant part =
            sum of the fixed field widths, variable part = the same fields.
+C05.push   the incremental builders of length-limited data (Opt::push_raw_option,
+           SvcParamsBuilder::push_raw) bound what they *append* -- header
+           included -- and leave the value as it was when an append fails:
+           every failure exit after the first append passes a truncate to the
+           length saved before it.
 C05.disp   each type's parse_rdata / rtype() use its own RTYPE, RTYPE equals
            the IANA number, RTYPEs are pairwise distinct, the enum dispatchers
            call the same-named method in every arm, unknown types fall back to
@@ -57,11 +62,77 @@ def run(ctx):
     for adt in sorted(types):
         _check_type(ctx, F, adt, types[adt], widths)
     rule_disp(ctx, F, types)
+    rule_push(ctx, F)
     for adt, rb, ok, names in sigs.rdlen_compress_agreement(F):
         ctx.ob("C05.rdlen", adt, "no announced length when names are compressed", ok,
                "%s::rdlen(compress = true) announces a length although compose_rdata compresses %s on a compressing "
                "target: the advertised RDLENGTH differs from the octets written" % (adt.split("::")[-1], names), where=rb.where())
     rule_fwd(ctx, F)
+
+
+PUSHERS = [
+    # (body regex, field holding the octets, octets of per-item header the length check must include)
+    (r"^base::opt::Opt::<Octs>::push_raw_option$", "octets", 4, r"LongOptData::check_len$"),
+    (r"^rdata::svcb::params::SvcParamsBuilder::<Octs>::push_raw$", "octets", 4, None),
+]
+
+
+def _const_sum(t):
+    """sum of the integer constants in a chain of additions (checked / saturating / plain)"""
+    t = deep_strip(t)
+    cv = const_value(t)
+    if cv is not None:
+        return cv
+    if t[0] == "cast":
+        return _const_sum(t[2])
+    if t[0] == "bin" and t[1].startswith("Add"):
+        return _const_sum(t[2]) + _const_sum(t[3])
+    if t[0] == "call" and t[1] and re.search(r"::(saturating_add|checked_add|wrapping_add)$", t[1]) and len(t[3]) == 2:
+        return _const_sum(t[3][0]) + _const_sum(t[3][1])
+    if t[0] == "call" and t[1] and re.search(r"::(unwrap|expect|from|into|unwrap_or)$", t[1]) and t[3]:
+        return _const_sum(t[3][0])
+    return 0
+
+
+def rule_push(ctx, F):
+    from rulelib import must_pass, fmt_path, failed_calls
+    R = "C05.push"
+    ctx.floor(R, 3)
+    for rx, field, hdr, check_rx in PUSHERS:
+        b = F.one_body(rx)
+        if not ctx.anchor(R, rx, b):
+            continue
+        name = b.path.split("::")[-1]
+        appends = [bb for bb, t in b.calls()
+                   if re.search(r"::(compose|append_slice|call_once|compose_option|compose_value)$", t["fn"] or "")
+                   and any(field in show(deep_strip(b.term_of_operand(a))) for a in t["args"])]
+        if not ctx.anchor(R, "appends in %s" % name, len(appends) >= 2, b.where()):
+            continue
+        first = min(appends, key=lambda x: (not all(b.dominates(x, y) for y in appends if y != x), x))
+        # (a) the bound counts the item header
+        if check_rx:
+            cks = [(bb, t) for bb, t in b.calls() if re.search(check_rx, t["fn"] or "")]
+            if ctx.anchor(R, "length check in %s" % name, len(cks) == 1, b.where()):
+                cs = _const_sum(b.term_of_operand(cks[0][1]["args"][0]))
+                ctx.ob(R, b, "the length check counts the %d-octet item header" % hdr, cs == hdr,
+                       "%s checks `current length + item length` (constant part %d) but appends %d more octets of item header: "
+                       "the data can grow past its limit and computing its length later panics" % (name, cs, hdr), b.where(cks[0][0]))
+        # (b) rollback
+        truncs = [bb for bb, t in b.calls() if re.search(r"::truncate$", t["fn"] or "")]
+        errs = sorted({r[0] for r in return_assignments(b) if r[2] == "Err" and (r[0] in b.reach_from(first))})
+        bad = None
+        for e in errs:
+            # failure exits that come after an append
+            if not any(a in failed_calls(b, e, F) or a in b.reach_from(0) and e in b.reach_from(a) for a in appends):
+                continue
+            ok, path = must_pass(b, first, [e], truncs) if truncs else (False, None)
+            if not ok:
+                bad = e
+                break
+        ctx.ob(R, b, "a failed append leaves the value as it was", bad is None and bool(errs),
+               "%s can return an error after it has appended part of an item without truncating back to the length it started "
+               "from: the value keeps a half-written item (the next push or a later parse of the composed data fails or "
+               "panics)" % name, b.where(bad) if bad is not None else b.where())
 
 
 def _width_table(F):
